@@ -250,7 +250,12 @@ def pair_item(rec, i):
       bad = t
       break
     if bad is not None:
-      cause = ('frozen-value-not-revalidated' if has_frozen(a_d) else
+      # a typed list whose plain contents the base accepts is refused only because of the spec it carries: that is the
+      # compatibility gap between Enum and the number spec it extends, whatever else the specs contain
+      carried = (isinstance(bad, tuple) and bad and bad[0] == 'TL' and enum_extends_number(a_d, b_d)
+                 and accepts(S.mk(b_d), ('L',) + tuple(bad[2:]))[0] == 'ok')
+      cause = ('enum-extends-number' if carried else
+               'frozen-value-not-revalidated' if has_frozen(a_d) else
                'enum-extends-number' if enum_extends_number(a_d, b_d) else f'{kind2(a_d)}~{kind2(b_d)}')
       rec.viol(f'L4-extended-accepts-more/{cause}',
                f'{a_d!r}.extend({b_d!r}) succeeded giving {c2!r}, which accepts {bad!r} that the base rejects',
